@@ -29,7 +29,8 @@ META = {
             "heap operation preserves it, the lifting to run_one is assumed), kind disciplines Plain (no heap cell holds a "
             "bare LexicalEnvPtr/InstructionPointer, global slots are pointers or address-free, continuation objects hold "
             "stack[0..=sp]) and NoIofArg, and bp-relative stack reads at or below sp. The concrete instantiation is tied to "
-            "the code by the concrete-heap-step stream; model limits found there: an inline Rc payload (the Vector left in "
+            "the code by the concrete-heap-step stream, and the per-state clauses of Safe are evaluated on the same real states "
+            "by the safe-side-conditions stream (executable counterparts, all satisfied); model limits found there: an inline Rc payload (the Vector left in "
             "acc by VPUSH) stored back by CONS is by-value in the model (bucket alias), out-of-range operands panic in Rust "
             "and take a default in the total HeapOps signature. Output (display/write) is not part of the machine model. "
             "Beyond those theorems the first sentence is "
@@ -47,7 +48,7 @@ META = {
                  "heap snapshots and API sequences + schedule exploration on the implementation",
 }
 MODULE = "Marwood.Proofs.C03"
-THEOREMS = ["Marwood.Proofs.C03." + t for t in ['mark_computes_reachable', 'mark_fuel_adequate', 'runGc_fuel_adequate', 'runGc_preserves_reachable', 'runGc_skipped_id', 'runGc_preserves_observation', 'new_wf', 'alloc_preserves_wf', 'put_preserves_wf', 'maybePut_preserves_wf', 'free_preserves_wf', 'grow_preserves_wf', 'mark_preserves_wfcore', 'runGc_preserves_wf', 'witness_ok', 'unfixed_marker_breaks_wf', 'fixed_marker_keeps_wf', 'unfixed_marker_allocates_cell_twice', 'fixed_marker_allocates_each_cell_once', 'runSched_pureN', 'gc_unobservable_partial', 'gc_unobservable_value_partial', 'demo_sim']] + ["Marwood.Lemmas.Sim." + t for t in ['cgc_sim', 'cput_sim', 'putNew_sim', 'step_sim', 'execSim_all', 'activationLaw', 'builtinLaw_of_ext', 'sim_refl', 'readObs_rel', 'eq_agree']]
+THEOREMS = ["Marwood.Proofs.C03." + t for t in ['mark_computes_reachable', 'mark_fuel_adequate', 'runGc_fuel_adequate', 'runGc_preserves_reachable', 'runGc_skipped_id', 'runGc_preserves_observation', 'new_wf', 'alloc_preserves_wf', 'put_preserves_wf', 'maybePut_preserves_wf', 'free_preserves_wf', 'grow_preserves_wf', 'mark_preserves_wfcore', 'runGc_preserves_wf', 'witness_ok', 'unfixed_marker_breaks_wf', 'fixed_marker_keeps_wf', 'unfixed_marker_allocates_cell_twice', 'fixed_marker_allocates_each_cell_once', 'runSched_pureN', 'gc_unobservable_partial', 'gc_unobservable_value_partial', 'demo_sim', 'sHalt_safe']] + ["Marwood.Lemmas.Sim." + t for t in ['cgc_sim', 'cput_sim', 'putNew_sim', 'step_sim', 'execSim_all', 'activationLaw', 'builtinLaw_of_ext', 'sim_refl', 'readObs_rel', 'eq_agree']]
 
 
 def simstep_info(req):
@@ -128,6 +129,13 @@ def streams(ctx):
     md, sd = correspond(ctx, "concrete-heap-step", cases, lambda r, i: i.startswith("ok"), model_equal=simstep_equal)
     simstep_summary(ctx, "concrete-heap-step", cases, md)
     settle(ctx, md, sd)
+    # the side conditions `Good` that T03.5 / T13.3 assume of every state along a run (hypothesis Safe), evaluated by
+    # their executable counterparts (Driver/SimGood.lean) on the same real states: heap below 2^63 cells, kind
+    # disciplines Plain / NoIofArg, wfCheck of the erased heap and roots, bp-relative reads of the current instruction
+    # at or below sp. The real state "is" good, so the implementation side of the comparison is the constant `ok`.
+    good = [("simgood" + r[len("simstep"):], "ok", None) for r, _, _ in cases]
+    md, sd = correspond(ctx, "safe-side-conditions", good, lambda r, i: True)
+    settle(ctx, md, sd)
     # unobservability exploration on the implementation
     cases = gen_cases_sharded("gc", ["obs", 20 if q else 150, 3 if q else 18], ctx.seed, 5 if q else 8)
     md, sd = correspond(ctx, "schedule-exploration", cases, obs_nontrivial)
@@ -149,7 +157,9 @@ def run(ctx):
              "concrete-heap-step.detail; generic builtins, eval's compiler and VPUSH replay the recorded heap delta and "
              "are counted as ext; CONS/VARARG of an inline Rc payload - a second heap cell sharing the Rc, not "
              "expressible in the by-value model - are counted as alias and compared on registers, stack and number of "
-             "changed cells only). "
+             "changed cells only); (5) safe-side-conditions: the executable counterparts of the per-state clauses of the "
+             "hypothesis Safe (Driver/SimGood.lean: heap size, Plain, NoIofArg, wfCheck of the erased heap and roots, "
+             "bp-relative reads of the current instruction) evaluated on the same real states, expected answer ok. "
              "Non-trivial = collection kept something / transcript has a successful form / step executed; distinct by "
              "request text",
         trusted_extra=["T03.5 (unobservability) is carried by stream (3) plus theorem T03.2, not by a closed theorem"])
